@@ -1,6 +1,7 @@
 /- Driver handler owned by property C09: `c09 <args…>` requests.
 
-   c09 pratt <tok>*      model of binop_expr on tokens (`a<n>`, `!`, operator names; `Sub` is the hyphen)
+   c09 pratt <tok>*      model of binop_expr on tokens (`a<n>`, `!`, operator names; `Sub` is the hyphen;
+                         postfix forms `?`, `f<n>` = `.name`, `c<n>` = an argument list)
    c09 ref <tok>*        reference grammar on the same (well-formed) token list
    c09 rel <A> <B>       generated relative_associativity
    c09 num|hex|asn|ipv4|str|chr|fstr|fpart|kw <hex of UTF-8 source>
@@ -25,7 +26,10 @@ def rel (a b : BinOp) : Res Assoc := RotoV.Gen.Precedence.relative_associativity
 
 def readTok (s : String) : Option Tok :=
   if s == "!" then some .bang
+  else if s == "?" then some (.post .try_)
   else if s.startsWith "a" then (s.drop 1).toNat?.map Tok.atom
+  else if s.startsWith "f" then (s.drop 1).toNat?.map (fun n => Tok.post (.field n))
+  else if s.startsWith "c" then (s.drop 1).toNat?.map (fun n => Tok.post (.call n))
   else (BinOp.ofName s).map Tok.op
 
 def assocName : Assoc → String
@@ -43,7 +47,10 @@ def showPRes : PRes → String
 def readOperand : List Tok → List UnOp → Option (Operand × List Tok)
   | .bang :: r, acc => readOperand r (.not :: acc)
   | .op .Sub :: r, acc => readOperand r (.neg :: acc)
-  | .atom n :: r, acc => some (⟨acc.reverse, n⟩, r)
+  | .atom n :: r, acc =>
+    let ps := r.takeWhile (fun t => match t with | .post _ => true | _ => false)
+    let r' := r.dropWhile (fun t => match t with | .post _ => true | _ => false)
+    some (⟨acc.reverse, n, ps.filterMap (fun t => match t with | .post p => some p | _ => none)⟩, r')
   | _, _ => none
 
 partial def readTail (ts : List Tok) (acc : Tail) : Option Tail :=
